@@ -26,7 +26,7 @@ TECHNIQUE = ('deterministic simulation: evolution-file perturbation as the '
              'injected fault, statement trace via connection.execute_wrapper '
              '(zero writes on rejection), sqlite3 snapshots before/after')
 PLAN = {
-    'quick': {'count': 500, 'max_wall': 170, 'shrink_budget': 25,
+    'quick': {'count': 1000, 'max_wall': 170, 'shrink_budget': 25,
               'shrink_wall': 120},
     'thorough': {'count': 9000, 'max_wall': 1500, 'shrink_budget': 60,
                  'shrink_wall': 300},
